@@ -8,6 +8,11 @@ extents, equal products, transposed matrices, lists one too short / too long, mo
 negative / = N / > N).  The implementation's raise / no-raise and the receiver's state before
 and after (bitwise) are compared with the decidable precondition `Pre_<op>` and with the
 model of the validation prefix `validate_<op>` evaluated by the Lean driver.
+
+A second family (`unsupported`) hands every public binary operation / method that takes a tensor
+operand an operand of a TYPE it does not take (str, None, list, dict, complex / float ndarray, the
+other pyttb classes) and demands an exception; its specification is the table `SUPPORTED` below
+(no Lean model).
 """
 from __future__ import annotations
 
@@ -34,11 +39,25 @@ RULE = ("one call per case; operands given by shape, values small integers deriv
         "repeated, non-permutation, element count changed, inconsistent constructor components, inadmissible "
         "option) over shapes with singleton, equal and multiple extents and empty sparse operands; "
         "non-trivial = an ill-formed request (the implementation must raise and leave the receiver bitwise "
-        "unchanged) or its accepted well-formed twin with more than one cell; distinct = distinct case hash")
+        "unchanged) or its accepted well-formed twin with more than one cell; distinct = distinct case hash. "
+        "Structural classes added after the mutation study: out-of-range subscripts whose value is zero or whose "
+        "duplicates cancel, zero / negative extents with and without entries, multiplicands of ttsv that are 2-d "
+        "arrays or nested lists, a sumtensor whose FIRST part differs, a ttensor given one component only, "
+        "non-float factor matrices / weights, initial guesses of a class the algorithm does not take (a ttensor "
+        "with fitting factors), contract of non-square matrices, larger masks whose nonzeros lie inside the data, "
+        "S[region] = sptensor with an index list of another length, subdims with a region of another length. "
+        "Family `unsupported`: every public binary operation / method taking a tensor operand is handed operands "
+        "of a TYPE it does not take (str, None, list, dict, complex / float ndarray, each other pyttb class; "
+        "receivers with and without nonzeros) and must raise - the specification is the table SUPPORTED written "
+        "from the signatures and class documentation, there is NO Lean theorem behind this family")
 ASSUMPTIONS = [
     "any Python exception is a rejection; a returned value (or None from an in-place operation) is an answer",
-    "operands are described by shape: matrices are 2-d arrays, vectors 1-d arrays, modes integers; requests "
-    "that are ill-typed rather than ill-sized (3-d 'matrices', float modes, strings) are outside the property",
+    "family malformed: operands are described by shape: matrices are 2-d arrays, vectors 1-d arrays, modes "
+    "integers; 3-d 'matrices' and float modes are outside the property",
+    "family unsupported: an operand kind counts as taken by an operation when the signature / documentation names "
+    "it or the operation converts it on purpose (tenfun: arrays of any dtype and every class with to_tensor/full, "
+    "hence also a tenmat; scale: anything with to_tenmat; dense __setitem__: NumPy's assignment conventions); "
+    "NumPy scalar types that pyttb refuses (np.int64 divisor) are over-rejection, not demanded either way",
     "only the preconditions named in the property are demanded; rejections beyond them are counted as "
     "over-rejection tags, never as violations",
 ]
@@ -121,6 +140,9 @@ def snap(o):
 
 def arr(x):
     return None if x is None else np.array(x, dtype=int)
+
+
+DTYPES = {"int": np.int64, "bool": np.bool_, "float32": np.float32, "complex": np.complex128, "float": np.float64}
 
 
 # ---------------------------------------------------------------------------------------------
@@ -556,7 +578,8 @@ class Contract(Op):
 
     def gen(self, rng, tier):
         out = []
-        for s in [[2, 2], [3, 3, 2], [2, 3, 2], [2, 2, 2], [1, 1], [1, 1, 1], [1, 3, 1], [2, 3, 2, 3], [4, 2, 4]]:
+        for s in [[2, 2], [3, 3, 2], [2, 3, 2], [2, 2, 2], [1, 1], [1, 1, 1], [1, 3, 1], [2, 3, 2, 3], [4, 2, 4],
+                  [2, 3], [4, 2], [1, 2], [3, 1]]:
             N = len(s)
             for rep in ("dense", "sparse"):
                 for nnz in ((None, 0) if rep == "sparse" else (None,)):
@@ -573,7 +596,10 @@ class Contract(Op):
                         else:
                             out.append(dict(base, bad="extent mismatch"))
         if tier == "quick":
-            out = rng.sample(out, min(len(out), 120))
+            # matrices (the trace path) are few: keep them all, sample the rest
+            two = [c for c in out if len(c["shape"]) == 2]
+            rest = [c for c in out if len(c["shape"]) != 2]
+            out = two + rng.sample(rest, min(len(rest), 100))
         return out
 
     def run(self, c, r):
@@ -807,9 +833,23 @@ class Constructors(Op):
                 s2 = [list(x) for x in subs]
                 s2[0][j] = s[j]
                 out.append(dict(b, subs=s2, bad="subscript = extent"))
+                # ... whose value is zero, or (aggregator) whose duplicates sum to zero: the entry would not survive
+                out.append(dict(b, subs=s2, zero=[0], bad="subscript = extent"))
+                if agg:
+                    out.append(dict(b, subs=s2 + [s2[0]], nvals=k + 1, cancel=[0, k], bad="subscript = extent"))
+                    s3 = [list(x) for x in subs]
+                    s3[-1][j] = s[j] + 1
+                    out.append(dict(b, subs=s3 + [s3[-1]], nvals=k + 1, cancel=[k - 1, k], bad="subscript > extent"))
                 s2 = [list(x) for x in subs]
                 s2[-1][j] = -1
                 out.append(dict(b, subs=s2, bad="subscript < 0"))
+                out.append(dict(b, subs=s2, zero=[k - 1], bad="subscript < 0"))
+                # extents that are zero or negative, without and with entries
+                for e in (0, -1, -s[j] - 1):
+                    t = s[:j] + [e] + s[j + 1:]
+                    out.append(dict(b, shape=t, subs=[], nvals=0, bad="extent <= 0"))
+                    out.append(dict(b, shape=t, bad="extent <= 0"))
+                out.append(dict(b, subs=[], nvals=0, bad=None))
                 out.append(dict(b, subs=[x + [0] for x in subs], bad="subscript width"))
                 if N > 1:
                     out.append(dict(b, subs=[x[:-1] for x in subs], bad="subscript width"))
@@ -828,6 +868,12 @@ class Constructors(Op):
                         f2 = [list(f) for f in base["fshapes"]]
                         f2[j][1] = C
                         out.append(dict(base, fshapes=f2, nw=None if j == 0 else R, bad="factor columns"))
+            # factor matrices / weights that are not float arrays (the constructor states dtype=float):
+            # all factors, or one of them (first / last)
+            for dt in ("int", "bool", "float32", "complex"):
+                for which in sorted({"all", 0, N - 1}, key=str):
+                    out.append(dict(base, nw=rng.choice([None, R]), fdtype=dt, fwhich=which, bad="factor dtype"))
+                out.append(dict(base, wdtype=dt, bad="weights dtype"))
             # ttensor(core, factors)
             core = [rng.choice([1, 2]) for _ in s]
             base = {"k": "ttensor", "core": core, "fshapes": [[m, c] for m, c in zip(s, core)], "sparse_core": False}
@@ -843,13 +889,28 @@ class Constructors(Op):
                 f2 = [list(f) for f in base["fshapes"]]
                 f2[j] = f2[j][::-1]
                 out.append(dict(base, fshapes=f2, bad="factor transposed"))
+            # only one of the two components (neither: the empty Tucker tensor)
+            for sc in (False, True):
+                out.append(dict(base, sparse_core=sc, omit="factors", bad="core without factors"))
+            out.append(dict(base, omit="core", bad="factors without core"))
+            out.append(dict(base, omit="both", bad=None))
             # sumtensor(parts) and sumtensor + part
             for plus in (False, True):
                 base = {"k": "sumtensor", "reps": ["dense", "ktensor", "sparse"], "shapes": [s, s, s], "plus": plus}
                 out.append(dict(base, bad=None))
-                for t in mismatched_shapes(s)[:3]:
+                ms = mismatched_shapes(s)
+                for t in ms[:3]:
                     out.append(dict(base, shapes=[s, s, t], bad="shape mismatch"))
                     out.append(dict(base, shapes=[s, t, s], bad="shape mismatch"))
+                # the first part is the odd one (the others agree with each other); lists of two; every holder first
+                for t in ms[:2] + ms[-1:]:
+                    out.append(dict(base, shapes=[t, s, s], bad="shape mismatch"))
+                    for i, first in enumerate(("dense", "ktensor", "sparse", "ttensor")):
+                        second = ("ktensor", "dense", "dense", "sparse")[i]
+                        out.append(dict(base, reps=[first, second], shapes=[t, s], bad="shape mismatch"))
+                        out.append(dict(base, reps=[first, second], shapes=[s, t], bad="shape mismatch"))
+                out.append(dict(base, reps=["ttensor", "sparse"], shapes=[s, s], bad=None))
+                out.append(dict(base, reps=["dense"], shapes=[s], bad=None))
             # tenmat(data, rdims, cdims, tshape) / sptenmat(subs, vals, rdims, cdims, tshape)
             p = gen.perm(rng, N)
             kk = rng.randint(0, N)
@@ -881,6 +942,9 @@ class Constructors(Op):
                 out.append(dict(b, bad=None))
                 out.append(dict(b, subs=[[mr, 0], msubs[1]], bad="row index = extent"))
                 out.append(dict(b, subs=[msubs[0], [0, mc]], bad="column index = extent"))
+                # ... holding a zero value
+                out.append(dict(b, subs=[[mr, 0], msubs[1]], zero=[0], bad="row index = extent"))
+                out.append(dict(b, subs=[msubs[0], [0, mc]], zero=[1], bad="column index = extent"))
                 out.append(dict(b, subs=[[mr + 1, 0], msubs[1]], bad="row index > extent"))
                 out.append(dict(b, subs=[[-1, 0], msubs[1]], bad="index < 0"))
                 out.append(dict(b, nvals=1, bad="number of values"))
@@ -910,22 +974,44 @@ class Constructors(Op):
             w = len(c["subs"][0]) if c["subs"] else len(c["shape"])
             subs = np.array(c["subs"], dtype=int).reshape(len(c["subs"]), w)
             vals = np.array([r.choice([1, 2, 3]) for _ in range(c["nvals"])], dtype=float).reshape(-1, 1)
+            for i in c.get("zero", ()):
+                if i < len(vals):
+                    vals[i] = 0.0
+            if c.get("cancel") and max(c["cancel"]) < len(vals):
+                vals[c["cancel"][1]] = -vals[c["cancel"][0]]
             if c["agg"]:
                 return (lambda: ttb.sptensor.from_aggregator(subs, vals, tuple(c["shape"]))), None
             return (lambda: ttb.sptensor(subs, vals, tuple(c["shape"]))), None
         if k == "ktensor":
             fs = [mk_mat(r, a, b) for a, b in c["fshapes"]]
             w = None if c["nw"] is None else np.ones(c["nw"])
+            if c.get("fdtype"):
+                fs = [f.astype(DTYPES[c["fdtype"]]) if c["fwhich"] in ("all", i) else f for i, f in enumerate(fs)]
+            if c.get("wdtype") and w is not None:
+                w = w.astype(DTYPES[c["wdtype"]])
             return (lambda: ttb.ktensor(fs, w)), None
         if k == "ttensor":
             core = mk_sparse(r, c["core"], gen.numel(c["core"])) if c["sparse_core"] else mk_dense(r, c["core"])
             fs = [mk_mat(r, a, b) for a, b in c["fshapes"]]
+            omit = c.get("omit")
+            if omit == "factors":
+                return (lambda: ttb.ttensor(core=core)), None
+            if omit == "core":
+                return (lambda: ttb.ttensor(factors=fs)), None
+            if omit == "both":
+                return (lambda: ttb.ttensor()), None
             return (lambda: ttb.ttensor(core, fs)), None
         if k == "sumtensor":
             parts = [mk_holder(r, rep, s) for rep, s in zip(c["reps"], c["shapes"])]
             if c["plus"]:
                 S = ttb.sumtensor(parts[:1])
-                return (lambda: (S + parts[1]) + parts[2]), S
+
+                def add_all():
+                    out = S
+                    for p in parts[1:]:
+                        out = out + p
+                    return out
+                return add_all, S
             return (lambda: ttb.sumtensor(parts)), None
         if k == "tenmat":
             data = mk_vec(r, c["dshape"][1]) if c.get("vec") else mk_mat(r, *c["dshape"])
@@ -934,6 +1020,9 @@ class Constructors(Op):
             w = len(c["subs"][0])
             subs = np.array(c["subs"], dtype=int).reshape(len(c["subs"]), w)
             vals = np.array([r.choice([1, 2, 3]) for _ in range(c["nvals"])], dtype=float).reshape(-1, 1)
+            for i in c.get("zero", ()):
+                if i < len(vals):
+                    vals[i] = 0.0
             return (lambda: ttb.sptenmat(subs, vals, arr(c["rdims"]), arr(c["cdims"]), tuple(c["tshape"]), copy=c["copy"])), None
         if k == "from_vector":
             return (lambda: ttb.ktensor.from_vector(np.ones(c["n"]), tuple(c["shape"]), c["cw"])), None
@@ -1076,12 +1165,41 @@ class Ttsv(Op):
                             out.append(dict(base, veclen=L, bad="vector length"))
                 for skip, what in ((-1, "mode<0"), (N, "mode=N"), (N + 2, "mode>N")):
                     out.append({"shape": s, "veclen": s[0], "skip": skip, "version": ver, "bad": "skip_dim " + what, "pending": True})
+                # the multiplicand as a 2-d array / nested list: an ndarray is squeezed by `parse_one_d`, a list is not
+                if cubic:
+                    n = s[0]
+                    for skip in [None] + list(range(N)):
+                        used = (-1 if skip is None else skip) + 1 < N
+                        b = {"shape": s, "veclen": n, "skip": skip, "version": ver}
+                        for vs in ([n, 2], [n, 3], [n, n], [2, n], [n, 1, 2]):
+                            if len([e for e in vs if e != 1]) < 2:
+                                continue
+                            for vl in (False, True):
+                                # an ndarray with two non-trivial dimensions is refused whether or not it is used
+                                if used:
+                                    out.append(dict(b, vshape=vs, vlist=vl, bad="multiplicand is not a vector"))
+                        for vs in ([n, 1], [1, n], [1, 1, n]):
+                            # squeezed to a vector of the right length when it is an ndarray
+                            out.append(dict(b, vshape=vs, vlist=False, bad=None))
+                            if used and n > 1:
+                                out.append(dict(b, vshape=vs, vlist=True, bad="multiplicand is a nested list"))
+                            if used and n > 1:
+                                w = [e if e == 1 else n + 1 for e in vs]
+                                out.append(dict(b, vshape=w, vlist=False, bad="vector length"))
+                        out.append(dict(b, vshape=[n], vlist=True, bad=None))
+                        if used:
+                            out.append(dict(b, vshape=[n + 1], vlist=True, bad="vector length"))
             out.append({"shape": s, "veclen": s[0], "skip": None, "version": 3, "bad": "version"})
         return out
 
     def run(self, c, r):
         X = mk_dense(r, c["shape"])
-        v = mk_vec(r, c["veclen"])
+        if c.get("vshape") is not None:
+            v = mk_vec(r, gen.numel(c["vshape"])).reshape(c["vshape"])
+            if c["vlist"]:
+                v = v.tolist()
+        else:
+            v = mk_vec(r, c["veclen"])
         return (lambda: X.ttsv(v, c["skip"], c["version"])), X
 
 
@@ -1383,6 +1501,18 @@ class Mask(Op):
                 out.append(dict(base, wshape=s, bad=None))
                 for k in range(len(s)):
                     out.append(dict(base, wshape=s[:k] + [s[k] + 1] + s[k + 1:], bad="mask larger"))
+                    # ... with every nonzero of the mask inside the data's index range (nothing to trip over later)
+                    out.append(dict(base, wshape=s[:k] + [s[k] + 1] + s[k + 1:], inside=True, bad="mask larger"))
+                out.append(dict(base, wshape=[m + 2 for m in s], inside=True, bad="mask larger"))
+                if len(s) > 1 and len(set(s)) > 1:
+                    # larger in one mode, smaller in another
+                    k, l = s.index(min(s)), s.index(max(s))
+                    w = list(s)
+                    w[k], w[l] = s[k] + 1, max(1, s[l] - 1)
+                    out.append(dict(base, wshape=w, inside=True, bad="mask larger"))
+                sm = [max(1, m - 1) for m in s]
+                if sm != s:
+                    out.append(dict(base, wshape=sm, bad=None))
                 out.append(dict(base, wshape=s + [1], bad="mask order"))
                 if len(s) > 1:
                     out.append(dict(base, wshape=s[:-1], bad="mask order"))
@@ -1391,7 +1521,15 @@ class Mask(Op):
 
     def run(self, c, r):
         X = mk_holder(r, c["rep"], c["shape"])
-        W = mk_sparse(r, c["wshape"]) if c["rep"] == "sparse" else mk_dense(r, c["wshape"])
+        if c.get("inside"):
+            common = [min(a, b) for a, b in zip(c["shape"], c["wshape"])]
+            cells = gen.all_subs(common)
+            subs = r.sample(cells, max(1, (len(cells) + 1) // 2))
+            W = gen.mk_sptensor(ttb, c["wshape"], subs, [1 for _ in subs])
+            if c["rep"] != "sparse":
+                W = W.to_tensor()
+        else:
+            W = mk_sparse(r, c["wshape"]) if c["rep"] == "sparse" else mk_dense(r, c["wshape"])
         return (lambda: X.mask(W)), X
 
 
@@ -1482,6 +1620,10 @@ class Dimscheck(Op):
         return (lambda: U.tt_dimscheck(c["N"], c["M"], arr(c["dims"]), arr(c["excl"]))), None
 
 
+#: initial guesses of a class no algorithm takes (the ttensor / dict carry factor matrices of the fitting sizes)
+INIT_OBJECTS = ("<ttensor>", "<tensor>", "<sptensor>", "<dict>", "<number>", "<none>", "<array>")
+
+
 class Algorithms(Op):
     """option validation of cp_als, cp_apr, tucker_als, hosvd, gcp_opt (one iteration at most)"""
     name = "algorithms"
@@ -1509,6 +1651,9 @@ class Algorithms(Op):
                 out.append(dict(b, opt={"init": {"shape": s, "R": 3}}, bad="init rank"))
                 out.append(dict(b, opt={"init": {"shape": t, "R": 2}}, bad="init shape"))
                 out.append(dict(b, opt={"init": "foo"}, bad="init name"))
+                for kind in INIT_OBJECTS:
+                    out.append(dict(b, opt={"init": kind}, bad="init type"))
+                out.append(dict(b, opt={"init": "<ttensor>", "dimorder": gen.perm(rng, N)}, bad="init type"))
                 b = {"alg": "cp_apr", "data": data, "shape": s, "rank": 2, "opt": {}}
                 for algo in ("mu", "pdnr", "pqnr"):
                     out.append(dict(b, opt={"algorithm": algo}, bad=None))
@@ -1521,6 +1666,9 @@ class Algorithms(Op):
                 out.append(dict(b, opt={"init": {"shape": s, "R": 2, "neg": "factor"}}, bad="init negative"))
                 out.append(dict(b, opt={"init": {"shape": s, "R": 2, "neg": "weight"}}, bad="init negative"))
                 out.append(dict(b, opt={"init": "foo"}, bad="init name"))
+                for kind in INIT_OBJECTS:
+                    for algo in ("mu", "pdnr"):
+                        out.append(dict(b, opt={"init": kind, "algorithm": algo}, bad="init type"))
                 out.append(dict(b, opt={"negdata": True}, bad="negative data"))
                 b = {"alg": "gcp_opt", "data": data, "shape": s, "rank": 2, "opt": {"solver": "lbfgsb" if data == "dense" else "sgd"}}
                 out.append(dict(b, bad=None))
@@ -1531,6 +1679,8 @@ class Algorithms(Op):
                     out.append(dict(b, opt=dict(o, init={"shape": s[:-1], "R": 2}), bad="init order"))
                     out.append(dict(b, opt=dict(o, init={"shape": s, "R": 3}), bad="init rank"))
                     out.append(dict(b, opt=dict(o, init="foo"), bad="init name"))
+                    for kind in INIT_OBJECTS:
+                        out.append(dict(b, opt=dict(o, init=kind), bad="init type"))
                 out.append(dict(b, opt={"solver": "none"}, bad="optimizer"))
                 out.append(dict(b, opt=dict(b["opt"], objective2=True), bad="objective tuple"))
                 if data == "sparse":
@@ -1560,6 +1710,8 @@ class Algorithms(Op):
             out.append(dict(b, opt={"init": [[m, 2] for m in s[:-1]] + [[s[-1] + 1, 2]]}, bad="init shape"))
             out.append(dict(b, opt={"init": [[m, 2] for m in s[:-1]] + [[s[-1], 3]]}, bad="init shape"))
             out.append(dict(b, opt={"init": "foo"}, bad="init name"))
+            for kind in INIT_OBJECTS + ("<ktensor>",):
+                out.append(dict(b, opt={"init": kind}, bad="init type"))
             out.append(dict(b, opt={"maxiters": -1}, bad="maxiters < 0"))
             b = {"alg": "hosvd", "data": "dense", "shape": s, "rank": None, "opt": {}}
             out.append(dict(b, bad=None))
@@ -1593,6 +1745,14 @@ class Algorithms(Op):
             X = X.to_sptensor()
 
         def mk_init(d):
+            if isinstance(d, str) and d in INIT_OBJECTS + ("<ktensor>",):
+                # an object of a class the algorithm does not take as a guess, with factors of the fitting sizes
+                R = c["rank"] if isinstance(c["rank"], int) and c["rank"] > 0 else 2
+                fs = [mk_mat(r, m, R) for m in s]
+                return {"<ttensor>": lambda: ttb.ttensor(mk_dense(r, [R] * len(s)), fs),
+                        "<tensor>": lambda: mk_dense(r, s), "<sptensor>": lambda: mk_sparse(r, s),
+                        "<dict>": lambda: {"factor_matrices": fs}, "<number>": lambda: 3, "<none>": lambda: None,
+                        "<array>": lambda: np.ones(tuple(s)), "<ktensor>": lambda: ttb.ktensor(fs)}[d]()
             if not isinstance(d, dict):
                 return d
             K = ttb.ktensor([np.array([[r.choice([1, 2, 3]) for _ in range(d["R"])] for _ in range(m)], dtype=float).reshape(m, d["R"])
@@ -1615,6 +1775,8 @@ class Algorithms(Op):
             kw = dict(o)
             if isinstance(kw.get("init"), list):
                 kw["init"] = [mk_mat(r, a, b) for a, b in kw["init"]]
+            elif isinstance(kw.get("init"), str):
+                kw["init"] = mk_init(kw["init"])
             kw.setdefault("maxiters", 1)
             return (lambda: ttb.tucker_als(X, c["rank"], printitn=0, **kw)), None
         if c["alg"] == "hosvd":
@@ -1695,8 +1857,118 @@ class ImportData(Op):
         return go, None
 
 
+def mk_key(parts):
+    """a region key from its JSON description"""
+    out = []
+    for e in parts:
+        if "int" in e:
+            out.append(e["int"])
+        elif "slice" in e:
+            out.append(slice(e["slice"][0], e["slice"][1]))
+        else:
+            out.append(np.array(e["list"], dtype=int) if e.get("arr") else list(e["list"]))
+    return tuple(out)
+
+
+def rand_region(rng, s, kinds=("int", "open", "slice", "list")):
+    """one key entry per mode of `s`, inside the shape; -> (parts, extent of each non-integer entry)"""
+    parts, ext = [], []
+    for m in s:
+        k = rng.choice(kinds)
+        if k == "int":
+            parts.append({"int": rng.randrange(m)})
+        elif k == "open":
+            parts.append({"slice": [None, None]})
+            ext.append(m)
+        elif k == "slice":
+            a = rng.randrange(m)
+            b = rng.randint(a + 1, m)
+            parts.append({"slice": [a, b]})
+            ext.append(b - a)
+        else:
+            idx = rng.sample(range(m), rng.randint(1, m))
+            parts.append({"list": idx, "arr": rng.random() < 0.5})
+            ext.append(len(idx))
+    return parts, ext
+
+
+class SpAssign(Op):
+    """`S[region] = sptensor`: an index LIST of the region must have as many entries as the right-hand side has
+    indices in that mode (slices only grow / are value dependent: property C04)"""
+    name = "sp_assign"
+    covers = ()
+
+    def gen(self, rng, tier):
+        out = []
+        shapes = [x for x in SHAPES if len(x) >= 2] + [[3, 2], [4, 3]]
+        for s in shapes:
+            for _ in range(3 if tier == "quick" else 10):
+                parts, ext = rand_region(rng, s)
+                if not ext:
+                    continue
+                if not any("list" in e for e in parts):
+                    # make sure an index list is there
+                    k = rng.randrange(len(s))
+                    parts2, _ = rand_region(rng, s, kinds=("list",))
+                    parts = parts[:k] + [parts2[k]] + parts[k + 1:]
+                    ext = [len(e["list"]) if "list" in e else (s[i] if e["slice"][1] is None else e["slice"][1] - e["slice"][0])
+                           for i, e in enumerate(parts) if "int" not in e]
+                for nnz in (None, 0):
+                    for rnz in (None, 0):
+                        base = {"shape": s, "nnz": nnz, "key": parts, "rhs": ext, "rnz": rnz}
+                        out.append(dict(base, bad=None))
+                        m = 0
+                        for e in parts:
+                            if "int" in e:
+                                continue
+                            if "list" in e:
+                                for L in (ext[m] + 1, ext[m] - 1, 1, 2 * ext[m]):
+                                    if L >= 1 and L != ext[m]:
+                                        out.append(dict(base, rhs=ext[:m] + [L] + ext[m + 1:], bad="index list length"))
+                            m += 1
+        return out
+
+    def run(self, c, r):
+        S = mk_sparse(r, c["shape"], c["nnz"])
+        V = mk_sparse(r, c["rhs"], c["rnz"])
+        key = mk_key(c["key"])
+        return (lambda: S.__setitem__(key, V)), S
+
+    def req(self, c):
+        key = [{"t": "int"} if "int" in e else {"t": "slice", "stop": e["slice"][1] is not None} if "slice" in e
+               else {"t": "list", "len": len(e["list"])} for e in c["key"]]
+        return {"key": key, "rhs": c["rhs"]}
+
+
+class Subdims(Op):
+    """`S.subdims(region)`: one region entry per mode"""
+    name = "subdims"
+    covers = (("sptensor", "subdims"),)
+
+    def gen(self, rng, tier):
+        out = []
+        shapes = SHAPES if tier == "thorough" else rng.sample(SHAPES, 6)
+        for s in shapes:
+            N = len(s)
+            for nnz in (None, 0):
+                for L in sorted({N, N + 1, N - 1, 0, 2 * N, N + 2}):
+                    for _ in range(2):
+                        t = (s * 3)[:L]
+                        parts, _ = rand_region(rng, t)
+                        out.append({"shape": s, "nnz": nnz, "region": parts, "bad": None if L == N else "region length"})
+        return out
+
+    def run(self, c, r):
+        S = mk_sparse(r, c["shape"], c["nnz"])
+        region = mk_key(c["region"])
+        return (lambda: S.subdims(region)), S
+
+    def req(self, c):
+        return {"N": len(c["shape"]), "len": len(c["region"])}
+
+
 OPS = [Dimscheck(), Ttv(), Ttm(), Mttkrp(), Innerprod(), Elementwise(), TenmatMul(), Ttt(), Contract(), Collapse(), Scale(),
-       Permute(), Reshape(), ToMat(), Constructors(), KtensorModes(), Nvecs(), Mttkrps(), Ttsv(), Symmetry(), Kmatch(), Update(), Reconstruct(), FromFunction(), MatIndex(), Misc(), Mask(), Extract(), Khatrirao(), Algorithms(), ImportData()]
+       Permute(), Reshape(), ToMat(), Constructors(), KtensorModes(), Nvecs(), Mttkrps(), Ttsv(), Symmetry(), Kmatch(), Update(), Reconstruct(), FromFunction(), MatIndex(), Misc(), Mask(), Extract(), Khatrirao(), Algorithms(), ImportData(), SpAssign(), Subdims()]
 OPS_BY_NAME = {o.name: o for o in OPS}
 
 # ---------------------------------------------------------------------------------------------
@@ -1712,7 +1984,7 @@ NO_PRECONDITION = {
 }
 #: reads and writes by key (growth on assignment, key forms, out-of-range keys) are property C04's
 C04_METHODS = {("tensor", "__getitem__"), ("tensor", "__setitem__"), ("sptensor", "__getitem__"),
-               ("sptensor", "__setitem__"), ("sptensor", "subdims")}
+               ("sptensor", "__setitem__")}
 
 
 def public_surface():
@@ -1781,7 +2053,10 @@ class Malformed(Family):
                 "C19_rejects_karrange", "C19_rejects_kextract", "C19_receiver_unchanged_kmode",
                 "C19_receiver_unchanged_karrange", "C19_rejects_mask", "C19_rejects_khatrirao", "C19_rejects_cp_als",
                 "C19_rejects_cp_apr", "C19_rejects_tucker_als", "C19_rejects_hosvd", "C19_rejects_gcp_opt",
-                "C19_rejects_import_data")
+                "C19_rejects_import_data", "C19_rejects_from_aggregator_extents", "C19_rejects_sptensor_extents",
+                "C19_sptensor_empty_nonpositive_extent_counterexample", "C19_rejects_ttsv_multiplicand",
+                "C19_rejects_ttensor_components", "C19_rejects_ktensor_typed", "C19_rejects_subdims",
+                "C19_rejects_sp_assign", "C19_receiver_unchanged_sp_assign")
 
     def gen(self, rng, tier):
         out = []
@@ -1845,5 +2120,176 @@ class Malformed(Family):
         return []
 
 
+# ---------------------------------------------------------------------------------------------
+# operands of an unsupported TYPE (no Lean model: the specification is the table below)
+# ---------------------------------------------------------------------------------------------
+#: kinds of operand handed to an operation; pyttb objects and arrays have the receiver's shape, so that
+#: nothing but the TYPE is wrong
+KINDS = ("str", "none", "list", "dict", "carray", "ndarray", "tensor", "sptensor", "ktensor", "ttensor", "sumtensor",
+         "tenmat", "sptenmat")
+_HOLDERS4 = {"tensor", "sptensor", "ktensor", "ttensor"}
+_DENSE_OK = {"ndarray", "carray", "tensor", "sptensor", "ktensor", "ttensor", "sumtensor", "tenmat"}
+_VEC_OK = {"list", "ndarray", "carray"}
+_FACTORS_OK = {"ktensor", "list", "ndarray", "carray"}
+_CMP = ("__eq__", "__ne__", "__lt__", "__le__", "__gt__", "__ge__")
+_LOGICAL = ("logical_and", "logical_or", "logical_xor")
+
+#: (class, method) -> kinds the operation takes (from the signatures' type hints, the class documentation and the
+#: isinstance ladders: `tenfun` takes arrays and every tensor class with `to_tensor`/`full`; NumPy's own assignment
+#: conventions for dense `__setitem__`); every OTHER kind of `KINDS` must be refused with an exception
+SUPPORTED = {}
+for _m in ("__add__", "__sub__", "__mul__", "__truediv__", "__pow__", "__radd__", "__rmul__", "__rtruediv__", "tenfun") + _CMP + _LOGICAL:
+    SUPPORTED[("tensor", _m)] = _DENSE_OK
+SUPPORTED.update({
+    ("tensor", "innerprod"): _HOLDERS4, ("tensor", "mask"): {"tensor", "sptensor"}, ("tensor", "ttt"): {"tensor"},
+    ("tensor", "ttv"): _VEC_OK, ("tensor", "ttm"): _VEC_OK, ("tensor", "ttsv"): _VEC_OK,
+    ("tensor", "mttkrp"): _FACTORS_OK, ("tensor", "mttkrps"): _FACTORS_OK,
+    ("tensor", "scale"): {"ndarray", "carray", "list", "tensor", "ktensor"},
+    ("tensor", "__setitem__"): {"tensor", "none", "list", "ndarray", "carray"},
+    ("sptensor", "__add__"): {"tensor", "sptensor", "sumtensor"}, ("sptensor", "__sub__"): {"tensor", "sptensor"},
+    ("sptensor", "__mul__"): {"tensor", "sptensor", "ktensor"}, ("sptensor", "__rmul__"): {"tensor", "sptensor", "ktensor"},
+    ("sptensor", "__truediv__"): {"tensor", "sptensor", "ktensor"}, ("sptensor", "__rtruediv__"): set(),
+    ("sptensor", "innerprod"): _HOLDERS4, ("sptensor", "mask"): {"tensor", "sptensor"},
+    ("sptensor", "ttv"): _VEC_OK, ("sptensor", "ttm"): _VEC_OK, ("sptensor", "mttkrp"): _FACTORS_OK,
+    ("sptensor", "scale"): {"ndarray", "carray", "list", "tensor", "sptensor"},
+    ("sptensor", "__setitem__"): {"sptensor"}, ("sptensor", "__setitem__:subs"): {"ndarray", "carray"},
+    ("sptensor", "__setitem__:linear"): {"ndarray", "carray"},
+    ("sptensor", "extract"): _VEC_OK,
+    ("ktensor", "__add__"): {"ktensor", "sumtensor"}, ("ktensor", "__sub__"): {"ktensor"},
+    ("ktensor", "__mul__"): {"tensor", "sptensor"}, ("ktensor", "__rmul__"): {"tensor", "sptensor"},
+    ("ktensor", "innerprod"): _HOLDERS4, ("ktensor", "mask"): {"tensor", "sptensor"}, ("ktensor", "score"): {"ktensor"},
+    ("ktensor", "fixsigns"): {"ktensor", "none"}, ("ktensor", "extract"): {"none", "list", "ndarray", "carray"},
+    ("ktensor", "ttv"): _VEC_OK, ("ktensor", "mttkrp"): _FACTORS_OK,
+    ("ttensor", "__mul__"): set(), ("ttensor", "__rmul__"): set(), ("ttensor", "innerprod"): _HOLDERS4,
+    ("ttensor", "ttv"): _VEC_OK, ("ttensor", "ttm"): _VEC_OK, ("ttensor", "mttkrp"): _FACTORS_OK,
+    ("sumtensor", "__add__"): _HOLDERS4, ("sumtensor", "__radd__"): _HOLDERS4, ("sumtensor", "innerprod"): _HOLDERS4,
+    ("sumtensor", "ttv"): _VEC_OK, ("sumtensor", "mttkrp"): _FACTORS_OK,
+    ("tenmat", "__add__"): {"tenmat"}, ("tenmat", "__sub__"): {"tenmat"}, ("tenmat", "__radd__"): {"tenmat"},
+    ("tenmat", "__rsub__"): {"tenmat"}, ("tenmat", "__mul__"): {"tenmat"}, ("tenmat", "__rmul__"): {"tenmat"},
+})
+for _m in _CMP + _LOGICAL:
+    SUPPORTED[("sptensor", _m)] = {"tensor", "sptensor"}
+SUPPORTED.update({
+    ("tensor", "tenfun_binary"): _DENSE_OK, ("tensor", "tenfun_unary"): _DENSE_OK,
+    # parts of a sum (alone / after a dense part) and the data handed to an algorithm
+    ("sumtensor", "__init__:only"): _HOLDERS4, ("sumtensor", "__init__:second"): _HOLDERS4,
+    ("cp_als", "data"): _HOLDERS4 | {"sumtensor"}, ("cp_apr", "data"): {"tensor", "sptensor"},
+    ("tucker_als", "data"): {"tensor", "sptensor"}, ("hosvd", "data"): {"tensor"}, ("gcp_opt", "data"): {"tensor", "sptensor"},
+})
+#: selectors / scalars of another type, for the operations that take a selector
+EXTRA_KINDS = {("ktensor", "extract"): ("float", "set")}
+
+
+def mk_receiver(r, cls, s, nnz=None):
+    if cls in ("cp_als", "cp_apr", "tucker_als", "hosvd", "gcp_opt"):
+        return None
+    if cls == "tenmat":
+        return mk_dense(r, s).to_tenmat(np.array([0]))
+    if cls == "sptenmat":
+        return mk_sparse(r, s).to_sptenmat(np.array([0]))
+    return mk_holder(r, {"tensor": "dense", "sptensor": "sparse"}.get(cls, cls), s, nnz)
+
+
+def mk_operand(r, kind, s, recv):
+    if kind in ("tensor", "sptensor", "ktensor", "ttensor", "sumtensor", "tenmat", "sptenmat"):
+        return mk_receiver(r, kind, s)
+    shape = tuple(recv.shape) if hasattr(recv, "shape") and not isinstance(recv, ttb.sumtensor) else tuple(s)
+    return {"str": lambda: "a", "none": lambda: None, "list": lambda: [1.0, 2.0], "dict": lambda: {"a": 1},
+            "carray": lambda: np.ones(shape) * (1 + 2j), "ndarray": lambda: np.ones(shape) * 2.0,
+            "float": lambda: 1.5, "set": lambda: {0}}[kind]()
+
+
+def unsupported_thunk(recv, cls, method, o, s):
+    N = len(s)
+    if method == "data":
+        from pyttb.gcp.handles import Objectives
+        from pyttb.gcp.optimizers import LBFGSB
+        return {"cp_als": lambda: ttb.cp_als(o, 1, maxiters=1, printitn=0),
+                "cp_apr": lambda: ttb.cp_apr(o, 1, maxiters=1, maxinneriters=1, printitn=0),
+                "tucker_als": lambda: ttb.tucker_als(o, 1, maxiters=1, printitn=0),
+                "hosvd": lambda: ttb.hosvd(o, 1e-4, verbosity=0),
+                "gcp_opt": lambda: ttb.gcp_opt(o, 1, Objectives.GAUSSIAN, LBFGSB(maxiter=1, iprint=-1), printitn=0)}[cls]
+    if method == "__init__:only":
+        return lambda: ttb.sumtensor([o])
+    if method == "__init__:second":
+        first = recv.parts[0]
+        return lambda: ttb.sumtensor([first, o])
+    if method == "tenfun_binary":
+        return lambda: recv.tenfun_binary(lambda a, b: a + b, o)
+    if method == "tenfun_unary":
+        return lambda: recv.tenfun_unary(lambda a: a.sum(axis=0), o)
+    if method == "ttt":
+        return lambda: recv.ttt(o)
+    if method in ("ttv", "ttm", "mttkrp"):
+        return lambda: getattr(recv, method)(o, 0)
+    if method == "scale":
+        return lambda: recv.scale(o, np.arange(N))
+    if method == "tenfun":
+        return lambda: recv.tenfun(lambda a, b: a + b, o)
+    if method == "__setitem__":
+        return lambda: recv.__setitem__((slice(None),) * N, o)
+    if method == "__setitem__:subs":
+        return lambda: recv.__setitem__(np.array([[0] * N, [m - 1 for m in s]]), o)
+    if method == "__setitem__:linear":
+        return lambda: recv.__setitem__(np.array([0, gen.numel(s) - 1]), o)
+    return lambda: getattr(recv, method)(o)
+
+
+class Unsupported(Family):
+    """every public binary operation / method that takes a tensor operand, handed an operand of a type it does not
+    take: it must raise (a returned value, also None or NotImplemented-free silence, is an answer) and leave the
+    receiver as it was"""
+    name = "unsupported"
+    theorems = ()
+
+    def gen(self, rng, tier):
+        out = []
+        shapes = rng.sample(SHAPES, 2 if tier == "quick" else 5)
+        for s in shapes:
+            for (cls, method), ok in sorted(SUPPORTED.items()):
+                if method.startswith("__setitem__:") and len(s) < 2:
+                    continue
+                kinds = [k for k in KINDS + EXTRA_KINDS.get((cls, method), ()) if k not in ok]
+                for kind in kinds:
+                    for nnz in ((None, 0) if cls == "sptensor" else (None,)):
+                        out.append({"cls": cls, "method": method, "kind": kind, "shape": s, "nnz": nnz})
+        return out
+
+    def evaluate(self, cases):
+        out = []
+        for c in cases:
+            r = _rng(c)
+            recv = mk_receiver(r, c["cls"], c["shape"], c["nnz"])
+            o = mk_operand(r, c["kind"], c["shape"], recv)
+            thunk = unsupported_thunk(recv, c["cls"], c["method"], o, c["shape"])
+            before = snap(recv)
+            logging.disable(logging.WARNING)
+            try:
+                with contextlib.redirect_stdout(io.StringIO()), warnings.catch_warnings():
+                    warnings.simplefilter("ignore")
+                    res = call(thunk)
+            finally:
+                logging.disable(logging.NOTSET)
+            raised = "reject" in res or res.get("ok") is NotImplemented
+            changed = snap(recv) != before
+            what = f"{c['cls']}.{c['method']}"
+            tags = [what, f"operand:{c['kind']}", "raise" if raised else "answer"]
+            if c["cls"] == "sptensor":
+                tags.append("receiver:all-zero" if c["nnz"] == 0 else "receiver:nonzeros")
+            impl = {"raised": raised, "receiver_changed": changed, "exc": res.get("exc", ""),
+                    "returned": None if raised else type(res.get("ok")).__name__}
+            spec = {"pre": False}
+            if not raised:
+                v = Verdict("violation", f"unsupported-operand|{what}|{c['kind']}|nnz={c['nnz']}: an operand of type "
+                            f"{c['kind']} was answered ({impl['returned']}) instead of rejected", impl, spec, spec, tags)
+            elif changed:
+                v = Verdict("violation", f"unsupported-operand-receiver|{what}|{c['kind']}: the rejected call changed "
+                            "its receiver", impl, spec, spec, tags)
+            else:
+                v = Verdict("ok", "", impl, spec, spec, tags, nontrivial=True)
+            out.append(v)
+        return out
+
+
 def families():
-    return [Malformed()]
+    return [Malformed(), Unsupported()]
